@@ -16,7 +16,7 @@ class OpenFOAM(object):
     def __enter__(self):
         # Create the target directory if it does not exist
         if not exists(self.target):
-            makedirs(target)
+            makedirs(self.target)
         # If it does, ensure that it's a directory
         elif not isdir(self.target):
             raise FileExistsError('{} exists and is not a directory'.format(self.target))
